@@ -130,7 +130,7 @@ fn check_batch(ts: &[[P4; 3]], r: &mut Report) {
 }
 
 fn lattice(quick: bool) -> Vec<P4> {
-    let (c, w): (Vec<f32>, Vec<f32>) = if quick { (vec![-2.0, -0.5, 1.0], vec![-1.0, 1.0, 2.0]) } else { (vec![-2.0, -1.0, -0.5, 0.25, 1.0, 2.0], vec![-1.0, 0.5, 1.0, 2.0]) };
+    let (c, w): (Vec<f32>, Vec<f32>) = if quick { (vec![-2.0, -0.5, 0.25, 1.0], vec![-1.0, 1.0, 2.0]) } else { (vec![-2.0, -1.0, -0.5, 0.25, 1.0, 2.0], vec![-1.0, 0.5, 1.0, 2.0]) };
     let mut v = vec![];
     for &x in &c { for &y in &c { for &z in &c { for &ww in &w { v.push([x, y, z, ww]); } } } }
     v
